@@ -184,8 +184,7 @@ def corpus():
         # the body of a response is still streamed while the same thread handles its next request (seeded change C17/15)
         st(d10, via='app', interleave=True), st(d10, via='app', rng='bytes=2-7', interleave=True),
         st(d10, via='app2', rng='bytes=2-7', interleave=True), st(d10, via='app', method='HEAD', interleave=True),
-        st(dict(len=default_maxread() * 2 + 7, mul=11), via='app', rng='bytes=5-', interleave=True),
-        st(dict(len=default_maxread() + 9, mul=13), via='app', interleave=True),
+        st(dict(len=default_maxread() + 7, mul=11), via='app', rng='bytes=5-', interleave=True),
         # byte-range-sets with many specs: the first one decides, however many follow (seeded change C17/16)
         st(d10, rng='bytes=2-4,' + ','.join('%d-%d' % (i % 9, i % 9) for i in range(1))),
         st(d10, rng='bytes=2-4,' + ','.join('%d-%d' % (i % 9, i % 9) for i in range(7))),
@@ -546,8 +545,10 @@ def run_impl(case):
                     if case.get('interleave'):
                         def between():
                             # the same thread handles another request (same route, plain GET and a Range) completely
+                            n_o, n_p = len(opened), len(pd_args)
                             wsgi_call(the_app, request_environ('GET', None, None))
                             wsgi_call(the_app, request_environ('GET', 'bytes=0-0', None))
+                            del opened[n_o:], pd_args[n_p:]          # what the other request did is not observed here
                     wire = wsgi_call(the_app, request_environ(case['method'], case['range'], ims_header(case)), between)
         finally:
             ss.parse_date = real_pd
